@@ -141,8 +141,10 @@ fn gen_deleg(r: &mut Rng, depth: usize, prefix: &str, opts: &GenOpts, used_roles
     }
     let mut children = Vec::new();
     if depth < opts.max_depth {
-        for _ in 0..r.usize(3) {
-            if let Some(c) = gen_deleg(r, depth + 1, &my_prefix, opts, used_roles, used_names, used_keys) {
+        for slot in 0..r.usize(3) {
+            // siblings own disjoint sub-directories ("c0/", "c1/", …) of their parent's prefix
+            let child_base = format!("{my_prefix}c{slot}");
+            if let Some(c) = gen_deleg(r, depth + 1, &child_base, opts, used_roles, used_names, used_keys) {
                 children.push(c);
             }
         }
@@ -153,7 +155,9 @@ fn gen_deleg(r: &mut Rng, depth: usize, prefix: &str, opts: &GenOpts, used_roles
         keys,
         threshold,
         paths: Paths::Patterns(vec![format!("{my_prefix}*")]),
-        terminating: false,
+        // a terminating delegation only stops the search from moving on to later siblings; every name
+        // lives under exactly one role's prefix chain here, so the flag never changes what is found
+        terminating: r.chance(1, 3),
         version: 1 + r.below(3),
         expires: FAR.into(),
         targets,
